@@ -21,7 +21,7 @@ import (
 func init() {
 	Registry["C07"] = &Check{
 		Scenarios: c07Scenarios,
-		Rule: "schedules: W in {2,3} writer threads, 1-2 messages each with sizes from {200 B, 2 KiB, 5 KiB} (below/above the 1 KiB pooled serialisation buffer and the 4 KiB bufio buffer) written to one diam.Conn through Message.WriteTo, Conn.Write with caller-serialised bytes and Message.WriteToStreamWithRetry (rotating per writer and message) over an in-memory transport whose Write stalls between two pieces; every schedule up to the preemption bound (W=2: bound 2 quick / unbounded thorough; W=3: bound 2 / 3), happens-before state caching. faults: every sequence of write outcomes (bytes accepted k in {0,1,n/2,n-1,n} x {temporary, permanent, nil}) of length <= retries+1 for retries 0..3 against writeRetry (io.Writer) and writeStreamRetry (MultistreamWriter), and through a diam.Conn over a faulting transport.",
+		Rule: "schedules: W in {2,3} writer threads, 1-2 messages each with sizes from {200 B, 2 KiB, 5 KiB} (below/above the 1 KiB pooled serialisation buffer and the 4 KiB bufio buffer) written to one diam.Conn through Message.WriteTo, Conn.Write with caller-serialised bytes and Message.WriteToStreamWithRetry (rotating per writer and message) over an in-memory transport whose Write stalls between two pieces; every schedule up to the preemption bound (W=2: bound 2 quick / unbounded thorough; W=3: bound 2 / 3), happens-before state caching. faults: every sequence of write outcomes (bytes accepted k in {0,1,n/2,n-1,n} x {temporary, permanent, nil}) of length <= retries+1 for retries 0..3 against writeRetry (io.Writer) and writeStreamRetry (MultistreamWriter), and through a diam.Conn over a faulting transport. sizes: every message size 32..8300 (multiples of four) through WriteTo / Conn.Write / WriteToWithRetry on a fault-free connection: the transport holds exactly the message as soon as the write has returned.",
 		Assume: []string{"data-race freedom between visible operations (audited separately with -race)", "the source rewriter and shims preserve Go semantics (shim unit tests)"},
 		QuickBudget: 100, ThoroughBudget: 1500,
 	}
@@ -72,6 +72,7 @@ func c07Scenarios(tier string) []*Scenario {
 	out = append(out, &Scenario{Name: "faults/writeRetry", Seq: func(r *SeqResult) { c07Faults(r, false) }})
 	out = append(out, &Scenario{Name: "faults/writeStreamRetry", Seq: func(r *SeqResult) { c07Faults(r, true) }})
 	out = append(out, &Scenario{Name: "faults/through-conn", Seq: c07ConnFaults})
+	out = append(out, &Scenario{Name: "sizes/single-writer", Seq: c07Sizes})
 	return out
 }
 
@@ -431,6 +432,60 @@ func c07ConnFaults(r *SeqResult) {
 			if viol != "" {
 				r.Violation = fmt.Sprintf("%s (retries=%d, transport outcomes=%v, errors=%v, wire=%d bytes)", viol, retries, sc, res, len(out))
 				r.Case = map[string]interface{}{"retries": retries, "script": sc}
+			}
+		}
+	}
+}
+
+// c07Sizes: one writer, a fault-free transport, every message size that is a multiple of four from
+// 32 to 8300 bytes (so every size around the 1 KiB pooled serialisation buffer and the 4 KiB
+// bufio buffer, the boundaries themselves included), written through Message.WriteTo,
+// Conn.Write with caller-serialised bytes and WriteToWithRetry on a fresh diam.Conn each: when the
+// write has returned nil the transport holds exactly the message - before anything else is written.
+func c07Sizes(r *SeqResult) {
+	for size := 32; size <= 8300; size += 4 {
+		for route := 0; route < 3; route++ {
+			size, route := size, route
+			var viol string
+			s := vs.Run(nil, false, 0, false, func() {
+				conn := vnet.NewConn("S")
+				conn.Pieces = 1
+				c, err := diam.NewConn(conn, "peer", diam.NewServeMux(), dict.Default)
+				if err != nil {
+					viol = err.Error()
+					return
+				}
+				m := c07msg(0, 0, size)
+				want, _ := m.Serialize()
+				if len(want) != size {
+					viol = fmt.Sprintf("harness: message has %d bytes, wanted %d", len(want), size)
+					return
+				}
+				switch route {
+				case 0:
+					_, err = m.WriteTo(c)
+				case 1:
+					_, err = c.Write(want)
+				case 2:
+					_, err = m.WriteToWithRetry(c, 2)
+				}
+				if err != nil {
+					viol = fmt.Sprintf("write failed on a fault-free transport: %v", err)
+					return
+				}
+				if !bytes.Equal(conn.Out, want) {
+					viol = fmt.Sprintf("the write returned nil but the transport holds %d of the message's %d bytes", len(conn.Out), len(want))
+				}
+			})
+			s.Teardown()
+			r.Cases++
+			r.Distinct++
+			if r.Sample == "" && size == 4096 {
+				r.Sample = "a 4096-byte message through WriteTo / Conn.Write / WriteToWithRetry: the transport holds exactly the message when the write returns"
+			}
+			if viol != "" && r.Violation == "" {
+				r.Violation = fmt.Sprintf("single writer, message of %d bytes through %s: %s", size, []string{"Message.WriteTo", "Conn.Write", "Message.WriteToWithRetry"}[route], viol)
+				r.Case = map[string]interface{}{"size": size, "route": route}
 			}
 		}
 	}
